@@ -179,6 +179,22 @@ def var_modifiers(var_name: str) -> List[str]:
     return []
 
 
+def type_name(variable_type: type) -> str:
+    """
+    Get the name of a type.
+
+    A metaclass can override attribute access on the class, so reading `__name__` the normal way can run (and fail in)
+    application code - which must not cost us the snapshot.
+
+    :param variable_type: the type
+    :return: the name of the type
+    """
+    try:
+        return type.__getattribute__(variable_type, '__name__')
+    except BaseException:
+        return 'object'
+
+
 def variable_to_string(variable_type, var_value):
     """
     Convert the variable to a string.
@@ -187,11 +203,11 @@ def variable_to_string(variable_type, var_value):
     :param var_value: the variable value
     :return: a string of the value
     """
-    if variable_type.__name__ in ITER_LIKE_TYPES:
+    if type_name(variable_type) in ITER_LIKE_TYPES:
         # if interator like then make a custom string - we do not want to mess with iterators
         return 'Iterator of type: %s' % variable_type
     elif variable_type is dict \
-            or variable_type.__name__ in LIST_LIKE_TYPES:
+            or type_name(variable_type) in LIST_LIKE_TYPES:
         # if we are a collection then we do not want to use built in string as this can be very
         # large, and quite pointless, instead we just get the size of the collection
         try:
@@ -241,7 +257,7 @@ def process_variable(var_collector: Collector, node: NodeValue) -> VariableRespo
                                                     var_collector.max_string_length)
 
     # create a variable for the lookup
-    variable = Variable(str(variable_type.__name__), variable_value_str, identity_hash_id, [], truncated)
+    variable = Variable(str(type_name(variable_type)), variable_value_str, identity_hash_id, [], truncated)
     # add to lookup
     var_collector.append_variable(var_id, variable)
     # return result - and expand children
@@ -303,7 +319,7 @@ def process_child_nodes(
     """
     variable_type = type(var_value)
     # if the type is a type we do not want children from - return empty
-    if variable_type.__name__ in NO_CHILD_TYPES:
+    if type_name(variable_type) in NO_CHILD_TYPES:
         return []
 
     # if the depth is more than we are configured - return empty
@@ -347,8 +363,8 @@ def find_children_for_parent(var_collector: Collector, parent_node: ParentNode, 
     :return: list of child nodes
     """
     if variable_type is dict:
-        return process_dict_breadth_first(parent_node, variable_type.__name__, value)
-    elif variable_type.__name__ in LIST_LIKE_TYPES:
+        return process_dict_breadth_first(parent_node, type_name(variable_type), value)
+    elif type_name(variable_type) in LIST_LIKE_TYPES:
         return process_list_breadth_first(var_collector, parent_node, value)
     elif isinstance(value, Exception):
         return process_list_breadth_first(var_collector, parent_node, value.args)
@@ -360,7 +376,7 @@ def find_children_for_parent(var_collector: Collector, parent_node: ParentNode, 
         except BaseException:
             value_dict = None
         if isinstance(value_dict, dict):
-            return process_dict_breadth_first(parent_node, variable_type.__name__, value_dict, correct_names)
+            return process_dict_breadth_first(parent_node, type_name(variable_type), value_dict, correct_names)
         logging.debug("Unknown type processed %s", variable_type)
         return []
 
